@@ -76,7 +76,169 @@ def c01(tier, seed):
                      ("gen_cap_cancel.has_trade", "gen_split_api.has_trade", "rand.events_with_trades"))
 
 
-CHECKS = {"C01": c01}
+MODV = ["none", "smaller", "equal", "larger"]
+RULE = ("histories: every path of the bounded generator configs (one TLC state = one history, every intermediate state "
+        "compared) plus seeded random runs recorded from the real code; non-trivial = ")
+
+
+def c02(tier, seed):
+    ck = Check("C02", tier, seed)
+    q = ck.quick
+    inv = ["Inv_C02_ViewsAgree", "Inv_C02_ViewsConsistent", "Inv_C02_NotCrossed", "Inv_C12_LevelsAccount", "Inv_C01_QueueSorted"]
+    book_mc(ck, "mc_views", inv=inv, act=[], Ops=["cap", "cancel", "modify", "disable", "enable"], Dts=[1], NLevels=3,
+            ModPrices=[-1, 10, 12], ModVols=MODV, MaxOrders=3, MaxOps=4 if q else 5, timeout=300 if q else 1200)
+    # views are part of the projection: every state of every history, levels spanning the alphabet, tick 2
+    book_gen(ck, "gen_views", cfg=GEN, Ops=["cap", "cancel", "modify", "disable", "enable"], Tick=2, NLevels=3,
+             Prices=[10, 12, 14], ModPrices=[-1, 14], ModVols=["smaller", "larger"], Kinds=["L"] if q else ["L", "M"],
+             MaxOrders=3, MaxOps=4 if q else 5, need=("two_sided", "crossed", "resting_partially_filled_or_resized"),
+             timeout=300 if q else 1500)
+    book_gen(ck, "gen_views_reload", cfg=GEN, Ops=["cap", "cancel", "reload"], NLevels=1, Prices=[10, 11], Vols=[1, 3],
+             MaxOrders=3, MaxOps=4 if q else 5, need=("two_sided", "op_reload"), timeout=300 if q else 1500)
+    # every event of random histories: logged views = views recomputed by TLC from the logged order table alone
+    prof = {"discipline": True, "audit_every": 1, "w": {"toggle": 0.6, "reload": 0.4, "modify": 4}}
+    ck.traces_stage("rand_views", "record_book", prof, files=8 if q else 64, runs=3 if q else 6, ops=120)
+    ck.assumptions.append("ViewsO (recomputation from the order table alone) is evaluated by TLC on the logged order table at every event (audit_every = 1)")
+    return ck.finish("model_checking", LEVEL_TEXT, RULE + "two-sided book states",
+                     ("gen_views.two_sided", "gen_views_reload.two_sided", "rand_views.two_sided_states"))
+
+
+def c03(tier, seed):
+    ck = Check("C03", tier, seed)
+    q = ck.quick
+    inv = ["Inv_C03_WellFormed", "Inv_C03_Conservation", "Inv_C03_Counter"]
+    act = ["Act_C03_AppendOnly", "Act_C03_Admitted"]
+    book_mc(ck, "mc_ledger", inv=inv, act=act, Ops=["cap", "cancel", "modify", "disable", "enable", "resettv"], Dts=[1],
+            ModPrices=[-1, 10, 12], ModVols=MODV, MaxOrders=3, MaxOps=4 if q else 5, timeout=300 if q else 1200)
+    book_gen(ck, "gen_ledger", cfg=GEN, Ops=["cap", "cancel", "modify", "resettv"], Prices=[10, 11], Vols=[1, 3],
+             ModPrices=[-1, 10, 11], ModVols=["smaller", "larger"], MaxOrders=3, MaxOps=4 if q else 5,
+             need=("has_trade", "multi_trade", "op_resettv", "op_modify"), timeout=300 if q else 1500)
+    prof = {"discipline": True, "audit_every": 10, "w": {"toggle": 0.5, "resettv": 1.5, "modify": 5}}
+    ck.traces_stage("rand_ledger", "record_book", prof, files=8 if q else 64, runs=2 if q else 4, ops=300)
+    return ck.finish("model_checking", LEVEL_TEXT, RULE + "histories / events with at least one trade",
+                     ("gen_ledger.has_trade", "rand_ledger.events_with_trades"))
+
+
+def c04(tier, seed):
+    ck = Check("C04", tier, seed)
+    q = ck.quick
+    inv = ["Inv_C04_State"]
+    act = ["Act_C04_Transitions", "Act_C04_NoOps"]
+    ops = ["cap", "create", "place", "cancel", "modify", "event", "settime"]
+    book_mc(ck, "mc_lifecycle", inv=inv, act=act, Ops=ops + ["disable", "enable"], Dts=[0, 1], Prices=[10], Vols=[2] if q else [1, 2],
+            ModPrices=[-1, 10], ModVols=MODV, MaxOrders=2, MaxOps=4 if q else 5, timeout=300 if q else 1200)
+    # every request against every order in every status (trading on: New/Active/Filled/Cancelled)
+    book_gen(ck, "gen_requests", cfg=GEN, Ops=ops, Dts=[1], Prices=[10], Vols=[2] if q else [1, 2], ModPrices=[-1, 10], ModVols=MODV,
+             MaxOrders=2, MaxOps=4 if q else 5, need=("cancelled_order", "unplaced_order", "has_trade"), timeout=300 if q else 1500)
+    # the same with trading off from the start: rejected market orders, then every request against them
+    book_gen(ck, "gen_requests_off", cfg=GEN, Ops=["cap", "place", "cancel", "modify", "event", "enable"], Trading0=False,
+             Prices=[10], Vols=[1], ModPrices=[-1, 10], ModVols=["none", "equal", "larger"], MaxOrders=2, MaxOps=4 if q else 5,
+             need=("rejected_order",), timeout=300 if q else 1500)
+    prof = {"discipline": True, "p_redundant": 0.3, "audit_every": 25, "w": {"toggle": 0.4, "settime": 1.5, "place": 4, "create": 3}}
+    ck.traces_stage("rand_redundant", "record_book", prof, files=8 if q else 64, runs=2 if q else 4, ops=300)
+    return ck.finish("model_checking", LEVEL_TEXT, RULE + "recorded redundant requests + generated histories with a cancelled order",
+                     ("gen_requests.cancelled_order", "gen_requests_off.rejected_order", "rand_redundant.redundant_requests"))
+
+
+def c05(tier, seed):
+    ck = Check("C05", tier, seed)
+    q = ck.quick
+    # the specification (positional FIFO queue) keeps every clause without the clock discipline
+    book_mc(ck, "mc_ties", Ops=["cap", "cancel", "modify"], Dts=[0], Discipline=False, Prices=[10, 11], ModPrices=[-1, 10, 11],
+            ModVols=["none", "smaller", "larger"], MaxOrders=3, MaxOps=4 if q else 5, timeout=300 if q else 1200)
+    # C01 alphabet, the clock never advances: every queue insertion ties
+    book_gen(ck, "gen_ties_cap_cancel", Ops=["cap", "cancel"], Dts=[0], Discipline=False, MaxOrders=3 if q else 4, MaxOps=4 if q else 5,
+             need=("has_trade", "dt0", "resting_partially_filled_or_resized"), timeout=300 if q else 1500)
+    # C06 alphabet with clock advance 0 or 1 (re-queuing modifications tie with placements)
+    book_gen(ck, "gen_ties_modify", Ops=["cap", "modify"], Dts=[0, 1], Discipline=False, Kinds=["L"], Prices=[10, 11], Vols=[1, 2],
+             ModPrices=[-1, 10, 11], ModVols=["none", "smaller", "equal"], MaxOrders=3, MaxOps=4,
+             need=("op_modify", "dt0", "has_trade"), timeout=300 if q else 1500)
+    # split API, snapshots and trading toggles on tie histories
+    book_gen(ck, "gen_ties_api_reload", Ops=["create", "place", "event", "cancel", "reload", "disable", "enable"], Dts=[0], Discipline=False,
+             Kinds=["L"], Prices=[10], Vols=[1, 2], MaxOrders=3, MaxOps=5 if q else 6, trunc_every=0,
+             need=("op_reload", "dt0", "has_trade"), timeout=300 if q else 1500)
+    prof = {"discipline": False, "p_tie": 0.5, "nprices": 6, "audit_every": 25, "w": {"modify": 4, "reload": 0.5, "toggle": 0.3}}
+    ck.traces_stage("rand_ties", "record_book", prof, files=8 if q else 64, runs=2 if q else 4, ops=300)
+    return ck.finish("model_checking", LEVEL_TEXT, RULE + "queueing calls made without advancing the clock",
+                     ("gen_ties_cap_cancel.dt0", "gen_ties_modify.dt0", "gen_ties_api_reload.dt0", "rand_ties.dt0_queueing_calls"))
+
+
+def c06(tier, seed):
+    ck = Check("C06", tier, seed)
+    q = ck.quick
+    book_mc(ck, "mc_modify", inv=["Inv_C01_QueueSorted", "Inv_C02_ViewsAgree", "Inv_C03_Conservation"],
+            act=["Act_C06_Modify", "Act_C01_TradesTakeHead", "Act_C01_RestsLast", "Act_C04_NoOps"],
+            Ops=["cap", "modify", "cancel"], Dts=[1], ModPrices=[-1, 10, 11, 12], ModVols=MODV, MaxOrders=3,
+            MaxOps=4 if q else 5, timeout=300 if q else 1200)
+    # every modify shape on every order in every status of every book with <= 3 orders; drain probe reveals the queue
+    book_gen(ck, "gen_modify", Ops=["cap", "modify"], Kinds=["L"], ModPrices=[-1, 10, 11, 12], ModVols=MODV,
+             MaxOrders=3, MaxOps=4 if q else 5, need=("op_modify", "has_trade", "resting_partially_filled_or_resized"),
+             timeout=300 if q else 1500)
+    book_gen(ck, "gen_modify_cancel_mkt", Ops=["cap", "modify", "cancel"], Prices=[10, 11], ModPrices=[-1, 10, 11],
+             ModVols=MODV, MaxOrders=3 if q else 4, MaxOps=4 if q else 5, need=("op_modify", "cancelled_order"), timeout=300 if q else 1500)
+    prof = {"discipline": True, "audit_every": 25, "nprices": 8, "w": {"modify": 8, "event": 4, "cancel": 2}}
+    ck.traces_stage("rand_modify", "record_book", prof, files=8 if q else 64, runs=2 if q else 4, ops=300)
+    return ck.finish("model_checking", LEVEL_TEXT, RULE + "generated histories containing a modify + recorded modify calls",
+                     ("gen_modify.op_modify", "gen_modify_cancel_mkt.op_modify", "rand_modify.op_modify"))
+
+
+def c07(tier, seed):
+    ck = Check("C07", tier, seed)
+    q = ck.quick
+    # reload (4 modes) at every position of every history + every continuation: original and reloaded copies
+    # are both driven on and must both equal the specification's state (for which reload is the identity)
+    book_gen(ck, "gen_reload", Ops=["cap", "cancel", "modify", "reload"], Prices=[10, 11], Vols=[1, 2], Kinds=["L", "M"],
+             ModPrices=[-1, 11], ModVols=["smaller", "larger"], MaxOrders=3, MaxOps=4, trunc_every=40 if q else 4,
+             need=("op_reload", "has_trade", "cancelled_order", "resting_partially_filled_or_resized"), timeout=300 if q else 1500)
+    book_gen(ck, "gen_reload_off_new", Ops=["create", "cap", "place", "disable", "enable", "reload"], Prices=[10], Vols=[1, 2],
+             NLevels=1 if q else 7, MaxOrders=2, MaxOps=4 if q else 5, trunc_every=40 if q else 4,
+             need=("op_reload", "rejected_order", "unplaced_order", "trading_off"), timeout=300 if q else 1500)
+    prof = {"discipline": True, "audit_every": 25, "w": {"reload": 3, "toggle": 0.4, "modify": 3}}
+    ck.traces_stage("rand_reload", "record_book", prof, files=8 if q else 64, runs=2 if q else 4, ops=300)
+    return ck.finish("model_checking", LEVEL_TEXT, RULE + "generated histories containing a reload + recorded reload calls",
+                     ("gen_reload.op_reload", "gen_reload_off_new.op_reload", "rand_reload.op_reload"))
+
+
+def c12(tier, seed):
+    ck = Check("C12", tier, seed)
+    q = ck.quick
+    book_mc(ck, "mc_grid", inv=["Inv_C12_OnGrid", "Inv_C12_LevelsAccount"], act=["Act_C12_RejectedCreate", "Act_C04_NoOps"],
+            Ops=["cap", "create", "place", "modify", "cancel"], Tick=2, Dts=[1], Prices=[10, 11, 12], Vols=[1],
+            ModPrices=[-1, 10, 11, 12], ModVols=["none", "larger"], MaxOrders=3, MaxOps=4 if q else 5, timeout=300 if q else 1200)
+    # on- and off-grid creations (tick 3), both sides, both creation calls
+    book_gen(ck, "gen_create_grid", cfg=GEN, Ops=["cap", "create", "place", "cancel"], Tick=3, Prices=[9, 10, 11, 12], Vols=[1],
+             MaxOrders=3, MaxOps=4 if q else 5, need=("create_rejected", "has_trade"), timeout=300 if q else 1500)
+    # on- and off-grid modifications (tick 2)
+    book_gen(ck, "gen_modify_grid", cfg=GEN, Ops=["cap", "modify"], Tick=2, Prices=[10, 12], Vols=[1, 2], Kinds=["L"],
+             ModPrices=[-1, 10, 11, 12, 13], ModVols=["none", "larger"], MaxOrders=2 if q else 3, MaxOps=4 if q else 5,
+             need=("op_modify",), timeout=300 if q else 1500)
+    prof = {"discipline": True, "audit_every": 5, "p_offgrid": 0.3, "ticks": [2, 3, 4, 5, 6, 7, 8, 9, 10], "w": {"modify": 4, "create": 4}}
+    ck.traces_stage("rand_grid", "record_book", prof, files=8 if q else 64, runs=2 if q else 4, ops=300)
+    # arbitrary new prices in modify requests (known finding F3 lives here)
+    prof = dict(prof, p_offgrid_modify=0.2)
+    ck.traces_stage("rand_grid_modify", "record_book", prof, files=4 if q else 16, runs=1, ops=120)
+    return ck.finish("model_checking", LEVEL_TEXT, RULE + "generated histories with a rejected creation + recorded rejected creations",
+                     ("gen_create_grid.create_rejected", "rand_grid.rejected_creations"))
+
+
+def c13(tier, seed):
+    ck = Check("C13", tier, seed)
+    q = ck.quick
+    book_mc(ck, "mc_toggle", inv=["Inv_C02_ViewsAgree", "Inv_C04_State"],
+            act=["Act_C13_NoTradesOff", "Act_C13_MarketRejected", "Act_C13_ToggleStutters", "Act_C01_Exhaustive", "Act_C01_TradesTakeHead"],
+            Ops=["cap", "modify", "cancel", "disable", "enable"], Dts=[1], Prices=[10, 11], ModPrices=[-1, 10, 11], ModVols=["none", "larger"],
+            MaxOrders=3, MaxOps=4 if q else 5, timeout=300 if q else 1200)
+    book_gen(ck, "gen_toggle", Ops=["cap", "modify", "disable", "enable"], Prices=[10, 11], Vols=[1, 2], ModPrices=[-1, 10, 11],
+             ModVols=["none"], MaxOrders=3, MaxOps=4 if q else 5, need=("trading_off", "crossed", "rejected_order", "has_trade"),
+             timeout=300 if q else 1500)
+    book_gen(ck, "gen_toggle_off0", Ops=["cap", "cancel", "enable", "disable"], Trading0=False, Prices=[10, 11, 12], Vols=[1, 2],
+             MaxOrders=3, MaxOps=4 if q else 5, need=("crossed", "has_trade"), timeout=300 if q else 1500)
+    prof = {"discipline": True, "audit_every": 25, "nprices": 6, "trading0": [True, False], "w": {"toggle": 2.5, "modify": 4}}
+    ck.traces_stage("rand_toggle", "record_book", prof, files=8 if q else 64, runs=2 if q else 4, ops=300)
+    return ck.finish("model_checking", LEVEL_TEXT, RULE + "generated histories ending with trading off / recorded crossed states",
+                     ("gen_toggle.trading_off", "gen_toggle_off0.crossed", "rand_toggle.crossed_states"))
+
+
+CHECKS = {"C01": c01, "C02": c02, "C03": c03, "C04": c04, "C05": c05, "C06": c06, "C07": c07, "C12": c12, "C13": c13}
 
 
 def replay(prop, path):
